@@ -11,6 +11,10 @@
 //    Z len [fill]  resize(len[, fill]) — followed by NO barrier
 //    E form fam c salt k  for_all (form i: (index,value&), v: (value&)) whose callback modifies the value (fam-op c) and emits
 //       k rounds of async fam-updates to the visited element, its right neighbour and a far element of the SAME array
+//  "lifetimes" <script>: several arrays of the SAME type (array<uint64_t>) held by std::unique_ptr in numbered slots, created and
+//    destroyed in the order the script says (not nested):
+//    n k len dv|-  slot k := new array(world, len[, dv])   y k j  slot k := copy of slot j   D k  destroy slot k
+//    T k  select target   <update ops as above>   B barrier   c k  barrier + for_all dump `life k size idx:val ...` + barrier
 //  bag ops (items uint64_t):
 //    i r x  async_insert(x)   t r x d  async_insert(x,d)   v r d x,x,..|-  async_insert(vector,d)   W r d n start  async_insert({start..start+n-1}, d)
 //    B barrier   D dump (local_for_all order + local_size)   R rebalance   L seed  local_shuffle   G seed  global_shuffle + barrier
@@ -73,8 +77,30 @@ template <class It> static std::string join(const char* head, It b, It e) {
 
 typedef std::vector<std::string> args_t;   // a scenario: mode followed by its arguments
 
+typedef ygm::container::array<u64> arr_t;
+
+// one asynchronous update `c` of element i of t (issued by the calling rank)
+static void array_update(arr_t& t, char c, size_t i, u64 x) {
+  switch (c) {
+    case 's': t.async_set(i, x); break;
+    case 'p': t.async_plus(i, x); break;
+    case 'm': t.async_minus(i, x); break;
+    case 'x': t.async_multiplies(i, x); break;
+    case 'd': t.async_divides(i, x); break;
+    case 'a': t.async_bit_and(i, x); break;
+    case 'o': t.async_bit_or(i, x); break;
+    case 'e': t.async_bit_xor(i, x); break;
+    case 'A': t.async_logical_and(i, x); break;
+    case 'O': t.async_logical_or(i, x); break;
+    case '+': t.async_increment(i); break;
+    case '-': t.async_decrement(i); break;
+    case 'v': t.async_visit(i, [](const size_t idx, u64& v, const u64& k) { v = v * 3 + k + 7 * idx; }, x); break;
+    case 'w': t.async_visit(i, [](auto parr, const size_t idx, u64& v, const u64& k) { v = v * 3 + k + 7 * idx; }, x); break;
+    default: hc::out(std::string("bad-op ") + c);
+  }
+}
+
 static int run_array(ygm::comm& world, const args_t& argv) {
-  typedef ygm::container::array<u64> arr_t;
   size_t len = U(argv[1]); u64 dv = U(argv[2]);
   std::unique_ptr<arr_t> a[2];
   a[0].reset(new arr_t(world, len, dv));
@@ -148,26 +174,45 @@ static int run_array(ygm::comm& world, const args_t& argv) {
     if (c == 'Z') { if (f.size() > 2) t.resize(U(f[1]), U(f[2])); else t.resize(U(f[1])); continue; }
     if ((int)U(f[1]) != me) continue;
     size_t i = U(f[2]); u64 x = f.size() > 3 ? U(f[3]) : 0;
-    switch (c) {
-      case 's': t.async_set(i, x); break;
-      case 'p': t.async_plus(i, x); break;
-      case 'm': t.async_minus(i, x); break;
-      case 'x': t.async_multiplies(i, x); break;
-      case 'd': t.async_divides(i, x); break;
-      case 'a': t.async_bit_and(i, x); break;
-      case 'o': t.async_bit_or(i, x); break;
-      case 'e': t.async_bit_xor(i, x); break;
-      case 'A': t.async_logical_and(i, x); break;
-      case 'O': t.async_logical_or(i, x); break;
-      case '+': t.async_increment(i); break;
-      case '-': t.async_decrement(i); break;
-      case 'v': t.async_visit(i, [](const size_t idx, u64& v, const u64& k) { v = v * 3 + k + 7 * idx; }, x); break;
-      case 'w': t.async_visit(i, [](auto parr, const size_t idx, u64& v, const u64& k) { v = v * 3 + k + 7 * idx; }, x); break;
-      default: hc::out(std::string("bad-op ") + c);
-    }
+    array_update(t, c, i, x);
   }
   world.barrier();
   a[1].reset(); a[0].reset();
+  return 0;
+}
+
+// Arrays of one type whose lifetimes are NOT nested: slots of unique_ptr, constructed / copied / destroyed in script order.
+static int run_lifetimes(ygm::comm& world, const args_t& argv) {
+  std::vector<std::unique_ptr<arr_t>> a(16);
+  int cur = 0; int me = world.rank();
+  for (auto& f : parse(argv[1].c_str())) {
+    char c = f[0][0];
+    if (c == 'B') { world.barrier(); continue; }
+    if (c == 'T') { cur = (int)U(f[1]); continue; }
+    if (c == 'n' || c == 'y' || c == 'D' || c == 'c') {
+      size_t k = U(f[1]);
+      if (k >= a.size() || (c == 'n' || c == 'y' ? (bool)a[k] : !a[k]) || (c == 'y' && (U(f[2]) >= a.size() || !a[U(f[2])]))) { hc::out("bad-slot " + f[0] + " " + f[1]); return 1; }
+      if (c == 'n') {
+        if (f[3] == "-") a[k] = std::make_unique<arr_t>(world, U(f[2]));
+        else a[k] = std::make_unique<arr_t>(world, U(f[2]), U(f[3]));
+      } else if (c == 'y') {
+        a[k] = std::make_unique<arr_t>(*a[U(f[2])]); world.barrier();
+      } else if (c == 'D') {
+        a[k].reset();
+      } else {
+        world.barrier();
+        std::ostringstream o; o << "life " << k << " " << a[k]->size();
+        a[k]->for_all([&o](const size_t idx, u64& v) { o << " " << idx << ":" << v; });
+        hc::out(o.str()); world.barrier();
+      }
+      continue;
+    }
+    if ((int)U(f[1]) != me) continue;
+    if (cur < 0 || (size_t)cur >= a.size() || !a[cur]) { hc::out("bad-target"); return 1; }
+    array_update(*a[cur], c, U(f[2]), f.size() > 3 ? U(f[3]) : 0);
+  }
+  world.barrier();
+  for (auto& p : a) p.reset();      // oldest slot first
   return 0;
 }
 
@@ -298,6 +343,7 @@ static int run_sbag(ygm::comm& world, const args_t& argv) {
 static int run_scenario(ygm::comm& c, const args_t& a) {
   if (a.empty()) return 0;
   if (a[0] == "array") return run_array(c, a);
+  if (a[0] == "lifetimes") return run_lifetimes(c, a);
   if (a[0] == "bag") return run_bag(c, a);
   if (a[0] == "tbag") return run_tbag(c, a);
   if (a[0] == "sbag") return run_sbag(c, a);
